@@ -23,8 +23,9 @@ Streams
   scaling    (besides the families of e2e) inheritance families - chains, nested diamonds, mixin
              ladders, lattices, trees, shared mixins; complete after `x.m_`, infer / goto of an attribute
              of the root class - each family in a child process (gen/c15_inherit_child.py) that
-             counts elements drawn from ClassMixin.py__mro__ iterators, _infer_node entries and CPU
-             time: work(2n) <= 8 work(n) + slack for each measure, cut off at that bound
+             counts elements drawn from ClassMixin.py__mro__ iterators, _infer_node entries, function
+             calls (sys.setprofile) and CPU time: work(2n) <= 8 work(n) + slack for each measure, cut
+             off at that bound; a CPU cut-off must repeat on 3 attempts (the counters are exact)
 """
 import itertools
 import json
@@ -62,7 +63,7 @@ MANIFEST = dict(
          'appended, tested and yielded element of py__mro__ are the same variable) + decision-by-decision '
          'correspondence on the real objects + end-to-end runs of generated cyclic programs and scaling '
          'families (definition chains/diamonds/trees in-process, inheritance families in child processes '
-         'counting MRO entries, _infer_node entries and CPU time) under a watchdog.',
+         'counting MRO entries, _infer_node entries, function calls and CPU time) under a watchdog.',
     note='Modelled not verified: that every inference path of jedi is built only from these combinators '
          '(sampled by streams e2e and scaling); the lazily interleaved generator cache (oracle only), hence '
          'cyclic inheritance in py__mro__; builtins/typing exemptions are flags of the pushed execution.',
@@ -672,7 +673,7 @@ def stream_mro(ctx, reqs):
 
 # ----------------------------------------------------------------- stream: scaling (inheritance)
 
-INHERIT = dict(ratio=8, item_slack=64, cpu_slack=10.0, cpu_abs=30.0, cpu_attempts=3)
+INHERIT = dict(ratio=8, item_slack=64, call_slack=200000, cpu_slack=10.0, cpu_abs=30.0, cpu_attempts=3)
 CHILD = os.path.join(os.path.dirname(os.path.abspath(IC.__file__)), 'c15_inherit_child.py')
 
 
@@ -716,7 +717,7 @@ def read_child(p, err, deadline):
 
 
 def judge_inherit(ctx, fam, rows, killed, etxt, waited, cap):
-    R, I = INHERIT['ratio'], INHERIT['item_slack']
+    R, I, CS = INHERIT['ratio'], INHERIT['item_slack'], INHERIT['call_slack']
     mk = P.INHERIT_FAMILIES[fam]
     how = ('python harness/gen/c15_inherit_child.py \'{"family": "%s", "sizes": [n/2, n], ...}\' '
            '(= ./check C15 --replay <this file>): jedi.Script(source).<query>(line, column) with '
@@ -759,8 +760,8 @@ def judge_inherit(ctx, fam, rows, killed, etxt, waited, cap):
         ctx.count('scaling', (fam, n, q), nontrivial=ok and r['results'] > 0, bucket=fam,
                   sample={'family': fam, 'n': n, 'query': q, 'classes': r['classes'], 'mro_items': r['items'],
                           'listings': r['listings'], 'longest_listing': r['maxlen'], 'entries': r['entries'],
-                          'cpu_seconds': r['cpu'], 'results': r['results']})
-        work.setdefault(q, {})[n] = [r['items'], r['entries'], r['cpu']]
+                          'calls': r.get('calls'), 'cpu_seconds': r['cpu'], 'results': r['results']})
+        work.setdefault(q, {})[n] = [r['items'], r['entries'], r.get('calls'), r['cpu']]
         case = case_of(n, q)
         if r['outcome'] == 'RecursionError':
             ctx.fail('scaling', 'query on an inheritance family raises RecursionError', case,
@@ -775,6 +776,15 @@ def judge_inherit(ctx, fam, rows, killed, etxt, waited, cap):
                                'classes': r['classes'], 'longest_listing_so_far': r['maxlen'],
                                'all': {str(k[0]): v['items'] for k, v in sorted(done.items()) if k[1] == q}},
                      how=how)
+        elif r['outcome'] == 'calls-cap' or (ok and half and n >= 8 and half['outcome'] == 'ok'
+                                             and r.get('calls') is not None and half.get('calls') is not None
+                                             and r['calls'] > R * half['calls'] + CS):
+            ctx.fail('scaling', 'function calls made by the query grow faster than any cubic between n and 2n', case,
+                     expected={'calls(2n)<=': R * half['calls'] + CS},
+                     observed={'calls(n)': half['calls'], 'calls(2n)' + ('>' if not ok else ''): r['calls'],
+                               'classes': r['classes'], 'mro_items': r['items'],
+                               'all': {str(k[0]): v.get('calls') for k, v in sorted(done.items()) if k[1] == q}},
+                     how=how + '; calls = `call` + `c_call` events of sys.setprofile')
         elif r['outcome'] == 'cpu-cap':
             ctx.fail('scaling', 'CPU time grows faster than any cubic between n and 2n' if half else
                      'query on an inheritance family needs more than %.0f s CPU' % INHERIT['cpu_abs'], case,
@@ -1168,7 +1178,7 @@ def run(ctx):
         'cyclic inheritance is cut by the generator cache\'s sentinel, which is not modelled in Lean '
         '(stream gencache, fixed shapes self-/cyclic-inheritance of stream e2e); that the cost of a query '
         'on an instance is polynomial in the MRO work is sampled by the inheritance families of stream '
-        'scaling (MRO entries listed, _infer_node entries, CPU seconds)',
+        'scaling (MRO entries listed, _infer_node entries, function calls, CPU seconds)',
     ]
 
 
@@ -1184,9 +1194,9 @@ def replay(ctx, payload):
             for r in rows:
                 if r.get('ev') == 'done' and r['q'] == inp.get('query', r['q']):
                     print('n=%-3d %-8s classes=%-3d outcome=%-9s mro_items=%-7d longest_listing=%-6d '
-                          'infer_node_entries=%s cpu=%.2fs (item cap %s, cpu cap %.1fs)'
+                          'infer_node_entries=%s calls=%s cpu=%.2fs (item cap %s, call cap %s, cpu cap %.1fs)'
                           % (r['n'], r['q'], r['classes'], r['outcome'], r['items'], r['maxlen'], r['entries'],
-                             r['cpu'], r['item_cap'], r['cpu_cap']))
+                             r.get('calls'), r['cpu'], r['item_cap'], r.get('call_cap'), r['cpu_cap']))
             if killed:
                 print('child killed after 300 s')
             if etxt.strip():
